@@ -62,7 +62,8 @@ func genC15(t *rapid.T) *c15Case {
 	case "incr", "decr":
 		c.Delta = rapid.SampledFrom([]int{1, 5, 1000}).Draw(t, "delta")
 	case "lock":
-		c.Ms = rapid.SampledFrom([]int64{0, 5000, 30000}).Draw(t, "timeout")
+		// 2500 and 4500: the raw spelling "EX <seconds>" carries a fraction
+		c.Ms = rapid.SampledFrom([]int64{0, 5000, 30000, 2500, 4500}).Draw(t, "timeout")
 		c.After = rapid.SampledFrom([]string{"unlock", "lease", "none"}).Draw(t, "after")
 	case "delete":
 		c.NKeys = rapid.IntRange(1, 8).Draw(t, "nkeys")
@@ -301,7 +302,7 @@ func runC15(c *c15Case) (v *vcommon.Violation, inconclusive bool) {
 					return fail("unlock-effect", "path %s: after Unlock Get = %v", pn, g), false
 				}
 			case "lease":
-				l := pc.lease(ctx, key, r.Token, 7000)
+				l := pc.lease(ctx, key, r.Token, 6500)
 				if l.Err != "" {
 					return fail("lease-result", "path %s: Lease with the right token returned %s", pn, l.Err), false
 				}
@@ -309,8 +310,8 @@ func runC15(c *c15Case) (v *vcommon.Violation, inconclusive bool) {
 				if !g.Found || !bytes.Equal(g.Val, r.Token) {
 					return fail("lease-value", "path %s: after Lease the stored token is %v, want %x", pn, g, r.Token), false
 				}
-				if !ttlInWindow(g.TTL, l.Inv, l.Ret, 7000, 2) {
-					return fail("lease-ttl", "path %s: after Lease(7000ms) ttl = %d, want within [%d,%d]", pn, g.TTL, l.Inv/1e6+7000, l.Ret/1e6+7000), false
+				if !ttlInWindow(g.TTL, l.Inv, l.Ret, 6500, 2) {
+					return fail("lease-ttl", "path %s: after Lease(6500ms) ttl = %d, want within [%d,%d]", pn, g.TTL, l.Inv/1e6+6500, l.Ret/1e6+6500), false
 				}
 			}
 		}
